@@ -16,6 +16,17 @@ def run(chk):
                 'every level must return; any exception is a violation; non-trivial = some level reports something '
                 'other than NCD; distinct by scene digest')
     pipecheck.run_pipeline(chk, PROP, n, crash_is_violation=True)
+    # the witness of the recorded finding F7 (known_findings.json) is run on every run: while the defect is there it is
+    # reported by a KNOWN-FINDING line; anything else it does is judged like any other scene
+    from .. import scenes
+    rows = [('A', -15.0 * i, 9000.0, 2) for i in range(5)]
+    obs = scenes.run_scene(rows, {'MSA': 1000, 'MSA_HIT_BUFFER': 0})
+    chk.case(('F7-witness',), nontrivial=True)
+    if obs['exc']:
+        clause = 'C08.valid-input-refused' if obs['exc'] == 'AmpycloudError' else 'C08.no-crash-on-valid-input'
+        chk.spec_fail(clause, f"{obs['exc']} at stage {obs['stage']}: {obs.get('exc_msg')}",
+                      {'witness': 'F7', 'rows': rows, 'prms': {'MSA': 1000, 'MSA_HIT_BUFFER': 0}},
+                      signature='crop-empties-the-table')
     chk.explanation = ('Totality has a proved part (model error branches unreachable, kernel pre-conditions met: theorems '
                        'C08_*) and a searched part (third-party code raising inside its documented domain), which no '
                        'executable model of ampycloud can exhibit; the search part is exploration, not proof.')
